@@ -14,8 +14,16 @@ leptos pages exercise, and the parts hostile data would exercise if escaping fai
     ordinary, void, RCDATA and raw-text elements, p-closing block elements, headings, li/dd/dt,
     pre/listing/textarea newline skipping, button, implied end tags, scopes, the generic end-tag
     rule, and NUL handling. Formatting elements (a, b, i, ...) are treated as ordinary elements
-    and tables, select, template and foreign content (svg, math) are not implemented: a
-    document that needs those rules is parsed approximately and `Parser.notes` says so.
+    and tables, select and template are not implemented: a document that needs those rules is
+    parsed approximately and `Parser.notes` says so;
+  * foreign content (13.2.6.5): `<svg>` / `<math>` start a foreign subtree in which every element
+    (also `style`, `script`, `title`, `textarea`, `xmp` ...) is an ordinary element in the data
+    state, NUL becomes U+FFFD, `<![CDATA[ ... ]]>` is a CDATA section, self-closing start tags are
+    honoured, the break-out start tags (`b`, `div`, `p`, `span`, `img`, ...) close the foreign
+    subtree, and HTML rules apply again inside the HTML integration points (svg `foreignObject`,
+    `desc`, `title`; MathML `annotation-xml` with an HTML encoding) and, for text and most start
+    tags, inside the MathML text integration points (`mi`, `mo`, `mn`, `ms`, `mtext`). Element and
+    attribute names keep the tokenizer's lower case (the case fix-ups of svg names are not applied).
 
 Tree: ("doc", [children]) with children ("doctype", name) | ("comment", text) | ("text", text) |
 ("el", name, [(attr, value), ...], [children]).
@@ -44,7 +52,7 @@ SPECIAL = {"address", "applet", "area", "article", "aside", "base", "basefont", 
 SCOPE_BASE = {"applet", "caption", "html", "table", "td", "th", "marquee", "object", "template"}
 FORMATTING = {"a", "b", "big", "code", "em", "font", "i", "nobr", "s", "small", "strike", "strong", "tt", "u"}
 UNIMPLEMENTED = {"table", "caption", "colgroup", "col", "tbody", "tfoot", "thead", "tr", "td", "th", "select",
-                 "option", "optgroup", "template", "svg", "math", "frameset", "frame", "plaintext", "form",
+                 "option", "optgroup", "template", "frameset", "frame", "plaintext", "form",
                  "applet", "marquee", "object"}
 C1_REPLACEMENTS = {
     0x80: 0x20AC, 0x82: 0x201A, 0x83: 0x0192, 0x84: 0x201E, 0x85: 0x2026, 0x86: 0x2020, 0x87: 0x2021,
@@ -52,6 +60,13 @@ C1_REPLACEMENTS = {
     0x92: 0x2019, 0x93: 0x201C, 0x94: 0x201D, 0x95: 0x2022, 0x96: 0x2013, 0x97: 0x2014, 0x98: 0x02DC,
     0x99: 0x2122, 0x9A: 0x0161, 0x9B: 0x203A, 0x9C: 0x0153, 0x9E: 0x017E, 0x9F: 0x0178}
 _MAX_NAME = max(len(k) for k in _NAMED)
+# 13.2.6.5: start tags that end a foreign subtree
+FOREIGN_BREAKOUT = {"b", "big", "blockquote", "body", "br", "center", "code", "dd", "div", "dl", "dt", "em", "embed",
+                    "h1", "h2", "h3", "h4", "h5", "h6", "head", "hr", "i", "img", "li", "listing", "menu", "meta",
+                    "nobr", "ol", "p", "pre", "ruby", "s", "small", "span", "strong", "strike", "sub", "sup", "table",
+                    "tt", "u", "ul", "var"}
+SVG_HTML_INTEGRATION = {"foreignobject", "desc", "title"}
+MATHML_TEXT_INTEGRATION = {"mi", "mo", "mn", "ms", "mtext"}
 
 
 def preprocess(text):
@@ -82,6 +97,7 @@ class Tokenizer:
         self.state = "data"
         self.last_start = None
         self.errors = []
+        self.cdata_allowed = lambda: False      # set by the tree builder: adjusted current node is foreign
 
     def peek(self, k=0):
         j = self.i + k
@@ -354,6 +370,12 @@ class Tokenizer:
             self.i = j + 1 if j >= 0 else len(s)
             name = body.strip(WS).split(" ")[0].lower() if body.strip(WS) else ""
             return ("doctype", name)
+        if s.startswith("<![CDATA[", self.i) and self.cdata_allowed():
+            # CDATA section state: text up to "]]>" (or the end of input)
+            j = s.find("]]>", self.i + 9)
+            text = s[self.i + 9:j if j >= 0 else len(s)]
+            self.i = j + 3 if j >= 0 else len(s)
+            return ("chars", text)
         # <![CDATA[ in HTML content, and everything else: bogus comment
         self.i += 2
         return self.bogus_comment()
@@ -394,6 +416,8 @@ class Parser:
         self.notes = []
         self.skip_lf = False
         self.head = None
+        self.foreign = {}       # id(element) -> "svg" | "math" for elements in a foreign namespace
+        self.tok.cdata_allowed = lambda: bool(self.stack) and id(self.cur()) in self.foreign
         if fragment:
             html = ("el", "html", [], [])
             body = ("el", "body", [], [])
@@ -456,7 +480,72 @@ class Parser:
         return self.doc
 
     def dispatch(self, t):
+        if self.stack and t[0] != "eof" and self.mode != "text":
+            cur = self.cur()
+            ns = self.foreign.get(id(cur))
+            if ns is not None:
+                html_rules = False
+                if t[0] in ("start", "chars"):
+                    if self.is_html_integration(cur):
+                        html_rules = True
+                    elif ns == "math" and cur[1] in MATHML_TEXT_INTEGRATION and (
+                            t[0] == "chars" or t[1] not in ("mglyph", "malignmark")):
+                        html_rules = True
+                    elif ns == "math" and cur[1] == "annotation-xml" and t[0] == "start" and t[1] == "svg":
+                        html_rules = True
+                if not html_rules:
+                    return self.foreign_content(t)
         getattr(self, "mode_" + self.mode.replace(" ", "_").replace("(", "").replace(")", ""))(t)
+
+    # -- foreign content (13.2.6.5)
+    def is_html_integration(self, el):
+        ns = self.foreign.get(id(el))
+        if ns == "svg":
+            return el[1] in SVG_HTML_INTEGRATION
+        if ns == "math" and el[1] == "annotation-xml":
+            enc = dict(el[2]).get("encoding", "").lower()
+            return enc in ("text/html", "application/xhtml+xml")
+        return False
+
+    def insert_foreign(self, t, ns):
+        el = self.insert_el(t[1], t[2])
+        self.foreign[id(el)] = ns
+        self._keep = getattr(self, "_keep", [])
+        self._keep.append(el)           # ids stay unique while the parser lives
+        if len(t) > 3 and t[3]:
+            self.stack.pop()            # self-closing flag acknowledged
+        return el
+
+    def foreign_content(self, t):
+        kind = t[0]
+        if kind == "chars":
+            self.insert_text(t[1].replace("\0", "\ufffd"))
+            return
+        if kind == "comment":
+            self.children(self.cur()).append(t)
+            return
+        if kind == "doctype":
+            return
+        if kind == "start" or (kind == "end" and t[1] in ("br", "p")):
+            name = t[1]
+            if kind == "end" or name in FOREIGN_BREAKOUT or (
+                    name == "font" and any(a in ("color", "face", "size") for a, _ in t[2])):
+                while (self.stack and id(self.cur()) in self.foreign and not self.is_html_integration(self.cur())
+                       and not (self.foreign[id(self.cur())] == "math" and self.cur()[1] in MATHML_TEXT_INTEGRATION)):
+                    self.stack.pop()
+                return getattr(self, "mode_" + self.mode.replace(" ", "_").replace("(", "").replace(")", ""))(t)
+            self.insert_foreign(t, self.foreign[id(self.cur())])
+            return
+        # end tag: the nearest element of that name closes, up to the first HTML element, where the
+        # HTML rules of the insertion mode take over
+        name = t[1]
+        for idx in range(len(self.stack) - 1, -1, -1):
+            el = self.stack[idx]
+            if idx < len(self.stack) - 1 and id(el) not in self.foreign:
+                return getattr(self, "mode_" + self.mode.replace(" ", "_").replace("(", "").replace(")", ""))(t)
+            if el[1] == name:
+                del self.stack[idx:]
+                return
 
     def redo(self, t):
         """reprocess the token in the (new) current insertion mode"""
@@ -734,6 +823,9 @@ class Parser:
                 return
             if name == "image":
                 self.insert_el("img", attrs, push=False)
+                return
+            if name in ("svg", "math"):
+                self.insert_foreign(t, name)
                 return
             if name in UNIMPLEMENTED:
                 self.notes.append("<%s> needs rules that are not implemented; treated as an ordinary element" % name)
